@@ -105,8 +105,8 @@ add("F11", "C20", "fixed", "introspect-schema created (truncated) the --output f
     commit="7ff877f", engine="C")
 
 # ---- open findings with compile-level or wire-level witnesses
-add("K3", "C16", "open", "ID under a list type ([ID!]!, [ID], [[ID!]]) gets the scalar ID helper in deserialize_with: the module does not type-check (E0308)",
-    hazard="id-under-list", symptoms=[r"rustc E0308"], also=["C02"],
+add("K3", "C16", "fixed", "ID under a list type ([ID!]!, [ID], [[ID!]]) got the scalar ID helper in deserialize_with: the module did not type-check (E0308)",
+    commit="b2ac6a9", also=["C02"],
     document="query Q { me { tags } }\n",
     vectors={"C16": [resp("w1", "Q", {"me": {"tags": ["a", 1]}}, {"me": {"tags": ["a", "1"]}})]})
 add("K4", "C10", "open", "an enum value that is, or normalises to, `Other` collides with the catch-all variant (E0428)",
